@@ -211,19 +211,29 @@ Definition uq (sg : list nat) (p : list place) (_ : place) : Qc := / qn (length 
 Definition gtarget (sg : list nat) (p : list place) : Qc :=
   if length p =? n then upos (gam (gdec sg p) * gcden sg (gdec sg p)) else 1.
 
+Lemma gtarget_pos sg p : 0 < gtarget sg p.
+Proof.
+  unfold gtarget. destruct (length p =? n); [|reflexivity]. apply upos_pos.
+  apply Qc_mul_nonneg; [apply Qc_lt_le; apply gam_pos| apply gcden_nonneg].
+Qed.
+Lemma gtarget_final sg path : In sg gorders -> In path (gpaths sg) ->
+  gtarget sg (rev path) = gam (gdec sg (rev path)) * gcden sg (gdec sg (rev path)).
+Proof.
+  intros Hsg Hp. pose proof (proj1 (gpaths_valid sg path Hsg) Hp) as Hv.
+  pose proof (gvalid_length _ _ _ _ Hv) as Hl. destruct (order_facts sg Hsg) as [_ [Hls _]].
+  unfold gtarget. rewrite rev_length, Hl, Hls, Nat.eqb_refl. apply upos_id.
+  apply Qc_mul_pos; [apply gam_pos|]. rewrite gdec_rev. unfold gcden. rewrite (cb_of_reach sg path Hsg Hv).
+  apply Qc_inv_pos. apply qn_pos. apply (gcount_pos sg); [exact Hsg| apply cb_of_reach; assumption].
+Qed.
+
 Theorem pg_update_grammar_closed (rs : @swarm place -> bool) (N : nat) (ops : list op) :
   S (count_upd ops) = n -> (forall m s, rs (bring m s) = rs s) ->
   invariant (wlist gam forests) (pg_update gorders gcden (gsup on) uq gtarget gdec genc rs N ops).
 Proof.
   intros Hn Hrs. apply pg_update_invariant_grammar; try assumption.
   - intros sg p a. unfold uq. apply Qc_inv_pos. apply qn_pos. apply all_places_nonempty.
-  - intros sg p. unfold gtarget. destruct (length p =? n); [|reflexivity]. apply upos_pos.
-    apply Qc_mul_nonneg; [apply Qc_lt_le; apply gam_pos| apply gcden_nonneg].
+  - exact gtarget_pos.
   - intros sg p. unfold uq. rewrite sumq_map_const. field. apply Qc_pos_neq0. apply qn_pos. apply all_places_nonempty.
-  - intros sg path Hsg Hp. pose proof (proj1 (gpaths_valid sg path Hsg) Hp) as Hv.
-    pose proof (gvalid_length _ _ _ _ Hv) as Hl. destruct (order_facts sg Hsg) as [_ [Hls _]].
-    unfold gtarget. rewrite rev_length, Hl, Hls, Nat.eqb_refl. apply upos_id.
-    apply Qc_mul_pos; [apply gam_pos|]. rewrite gdec_rev. unfold gcden. rewrite (cb_of_reach sg path Hsg Hv).
-    apply Qc_inv_pos. apply qn_pos. apply (gcount_pos sg); [exact Hsg| apply cb_of_reach; assumption].
+  - exact gtarget_final.
 Qed.
 End Inst.
